@@ -329,7 +329,7 @@ var recUDPB = ev.New("C18", "udp-boundaries",
 		"forward path is the tighter one) x MTU {1280, 1500} x target port {53, other}: payloads of budget+1 (must not be relayed), budget-1 and budget bytes (must be echoed), the budget "+
 		"computed from the Shadowsocks 2022 UDP packet format and the IPv4/UDP header sizes. Non-trivial: world exercised; distinct = world.").
 	Require("burst:relayBatchSize=1", "burst:relayBatchSize=2", "burst:batchMode=no", "burst:batchMode=sendmmsg", "burst-upstream:relayBatchSize=1", "burst-upstream:relayBatchSize=2",
-		"burst-size:3", "burst-size:40", "mtu-boundary:client-side", "mtu-boundary:server-side",
+		"burst-size:3", "burst-size:40", "mtu-boundary:client-side", "mtu-boundary:server-side", "mtu-boundary:server-mtu-larger",
 		"mtu-pad:port=53/client=omitted", "mtu-pad:port=53/client=empty", "mtu-pad:port=53/client=PadPlainDNS", "mtu-pad:port=53/client=PadAll", "mtu-pad:port=53/client=NoPadding",
 		"mtu-pad:port=other/client=omitted", "mtu-pad:port=other/client=empty", "mtu-pad:port=other/client=PadPlainDNS", "mtu-pad:port=other/client=PadAll", "mtu-pad:port=other/client=NoPadding",
 		"mtu-pad:port=53/server=omitted", "mtu-pad:port=53/server=empty", "mtu-pad:port=53/server=PadPlainDNS", "mtu-pad:port=53/server=PadAll", "mtu-pad:port=53/server=NoPadding",
@@ -388,6 +388,21 @@ func padWorld(m, rot int) *world {
 			e.udp[0].f["natTimeout"] = &dfield{Mode: mValue, Val: "5s"}
 			k++
 		}
+	}
+	// a server on a path with a larger MTU than its client: what the client lets through arrives, so a
+	// payload above the client's budget would come back
+	for i, sr := range []*dfield{{Mode: mValue, Val: "NoPadding"}, nil} {
+		s := w.addServer(fmt.Sprintf("W%d", i), "2022-blake3-aes-256-gcm", false, true, "d0")
+		s.udp[0].f["natTimeout"] = &dfield{Mode: mValue, Val: "60s"}
+		s.mtu = intp(m)
+		s.multiUser(w)
+		if sr != nil {
+			s.f["paddingPolicy"] = sr
+		}
+		c := w.addClientFor(fmt.Sprintf("CW%d", i), s)
+		s.mtu = intp(m + 100)
+		c.f["paddingPolicy"] = &dfield{Mode: mValue, Val: []string{"PadAll", "NoPadding"}[i]}
+		w.addServer(fmt.Sprintf("EW%d", i), "socks5", false, true, c.name)
 	}
 	return w
 }
